@@ -170,14 +170,16 @@ class HttpParser:
         nb_parsed = 0
         while True:
             if not self.__on_firstline:
+                # the line terminator may be spread over two reads: search
+                # what has been received so far, not only the new data
+                self._buf.append(data)
+                data = b''.join(self._buf)
                 idx = data.find(b'\r\n')
                 if idx < 0:
-                    self._buf.append(data)
-                    return len(data)
+                    self._buf = [data]
+                    return length
                 self.__on_firstline = True
-                self._buf.append(data[:idx])
-                first_line = b''.join(self._buf)
-                first_line = str(first_line, 'unicode_escape')
+                first_line = str(data[:idx], 'unicode_escape')
                 nb_parsed = nb_parsed + idx + 2
 
                 rest = data[idx + 2 :]
